@@ -200,6 +200,13 @@ func suiteBanner(e *vh.Env) {
 			if !bytes.Equal(got.body, plain.body) {
 				e.Fail("C14:banner-framed-body-altered", fmt.Sprintf("case %d: already framed request did not get the original body", i), i, nil, vh.Hex(got.body), vh.Hex(plain.body))
 			}
+			// "gets the original body": the body as the headers that describe it declare it - the fields that say how
+			// to decode and interpret the bytes must be the backend's
+			for _, name := range []string{"Content-Encoding", "Content-Type", "Content-Disposition", "Set-Cookie", "Content-Language"} {
+				if strings.Join(got.head[name], "\x00") != strings.Join(plain.head[name], "\x00") {
+					e.Fail("C14:banner-framed-body-altered", fmt.Sprintf("case %d: already framed request: header %s is %q, the backend sent %q (the original body is delivered, but no longer described as the backend described it)", i, name, got.head[name], plain.head[name]), i, nil, got.head[name], plain.head[name])
+				}
+			}
 			e.Count("target-already-framed")
 		default:
 			if !bytes.Equal(got.body, page) || !bytes.Contains(page, []byte(req.URL.String())) {
